@@ -93,5 +93,11 @@ impl World for Storage {
 }
 
 fn main() {
+    // RocksDB directories live on tmpfs: fsync is free there and nothing is left on disk.
+    let tmp = "/dev/shm/verif-w2";
+    if std::fs::create_dir_all(tmp).is_ok() {
+        // SAFETY: single-threaded at this point.
+        unsafe { std::env::set_var("TMPDIR", tmp) };
+    }
     simkit::cli::main_world(&Storage)
 }
